@@ -281,3 +281,43 @@ pub fn c01q_count_u32_max_prefix() {
 	s.encode_to(&mut o);
 	assert!(false, "the sequence of 2^32-1 elements was encoded without a complete five-byte prefix");
 }
+
+/// sequences and arrays whose ELEMENTS are pointer-like wrappers around primitives (`&u32`, `Box<u16>`, `Rc<u8>`, `Arc<i8>`, `&f32`):
+/// each element is the pointee's encoding -- never bytes of the wrapper itself (bulk paths are selected per element type)
+#[kani::proof]
+#[kani::unwind(14)]
+pub fn c01q_seq_of_wrapped_primitives() {
+	use alloc::{rc::Rc, sync::Arc, collections::VecDeque};
+	let a: u32 = kani::any();
+	let b: u32 = kani::any();
+	let mut exp = Buf::<12>::new();
+	exp.put(2 << 2); a.spec_enc(&mut exp); b.spec_enc(&mut exp);
+	let refs: Vec<&u32> = alloc::vec![&a, &b];
+	let mut r = Buf::<12>::new(); refs.encode_to(&mut r);
+	assert!(same_bytes(&r, &exp), "Vec<&u32> does not encode as the sequence of the pointees");
+	let sl: &[&u32] = &refs[..];
+	let mut r = Buf::<12>::new(); sl.encode_to(&mut r);
+	assert!(same_bytes(&r, &exp), "&[&u32] does not encode as the sequence of the pointees");
+	let x: u16 = kani::any();
+	let y: u16 = kani::any();
+	let arr: [Box<u16>; 2] = [Box::new(x), Box::new(y)];
+	let mut exp = Buf::<12>::new(); x.spec_enc(&mut exp); y.spec_enc(&mut exp);
+	let mut r = Buf::<12>::new(); arr.encode_to(&mut r);
+	assert!(same_bytes(&r, &exp), "[Box<u16>; 2] does not encode as the concatenation of the pointees");
+	assert!(arr.using_encoded(|s| same_slice(s, exp.bytes())), "[Box<u16>; 2]: using_encoded differs");
+	let p: u8 = kani::any();
+	let q: i8 = kani::any();
+	let mut d: VecDeque<Rc<u8>> = VecDeque::new(); d.push_back(Rc::new(p)); d.push_back(Rc::new(p));
+	let mut exp = Buf::<12>::new(); exp.put(2 << 2); exp.put(p); exp.put(p);
+	let mut r = Buf::<12>::new(); d.encode_to(&mut r);
+	assert!(same_bytes(&r, &exp), "VecDeque<Rc<u8>> does not encode as the sequence of the pointees");
+	let ar: [Arc<i8>; 1] = [Arc::new(q)];
+	let mut r = Buf::<12>::new(); ar.encode_to(&mut r);
+	assert!(r.n == 1 && r.d[0] == q as u8, "[Arc<i8>; 1] does not encode as the pointee");
+	let f: f32 = kani::any();
+	let fr: Vec<&f32> = alloc::vec![&f];
+	let mut exp = Buf::<12>::new(); exp.put(1 << 2); f.spec_enc(&mut exp);
+	let mut r = Buf::<12>::new(); fr.encode_to(&mut r);
+	assert!(same_bytes(&r, &exp), "Vec<&f32> does not encode as the sequence of the pointees");
+	core::mem::forget((refs, arr, d, ar, fr));
+}
